@@ -191,7 +191,7 @@ def run_case(case, ctx):
     if os.path.exists(path):
         os.remove(path)
     _CLOCK.t = 1600000000 + case.get("t0", 0)
-    it = Interp(path, clock=_CLOCK, auto_ts=case.get("auto", True))
+    it = Interp(path, clock=_CLOCK, auto_ts=case.get("auto", True), policy=case.get("policy", "fresh"))
     flags = set()
     nontrivial = False
     try:
@@ -304,6 +304,7 @@ def run_case(case, ctx):
         except OSError:
             pass
     flags.add("auto-on-at-open" if case.get("auto", True) else "auto-off-at-open")
+    flags.add("handles:" + case.get("policy", "fresh"))
     ctx.case(case, nontrivial, sorted(flags),
              sample={"auto": case.get("auto", True), "rich": case.get("rich", False), "prog": case["prog"][:10],
                      "len": len(case["prog"])})
@@ -334,7 +335,7 @@ def _with_ticks(prog, dts):
     for i, op in enumerate(prog):
         if op["op"] == "force_ts":
             op = dict(op)
-        out.append({"op": "tick", "dt": dts[i % len(dts)]})
+        out.append({"op": "tick", "dt": 0 if op.get("dt0") else dts[i % len(dts)]})
         out.append(op)
     return out
 
@@ -358,14 +359,22 @@ def case_strategy(draw, max_ops, sweep=False):
     for o in prog:
         if o["op"] == "force_ts" and o.get("k") in MUST["definition"] and draw(st.booleans()):
             o = dict(o, which="updated", time=draw(st.sampled_from([4000000000, 4102444800, 2147483648, 1610000000, 5, 0])))
+            same_second = draw(st.booleans())
+            if same_second:
+                # change, force, change - all within one clock second (and, with a retaining handle policy,
+                # through one handle): what a handle did a moment ago must not make it skip the stamp
+                out.append({"op": "set", "k": o["k"], "t": o["t"], "attr": "definition", "val": "before-force", "how": "name"})
+                o = dict(o, dt0=True)
             out.append(o)
-            out.append({"op": "set", "k": o["k"], "t": o["t"], "attr": "definition", "val": "after-force", "how": "name"})
+            out.append(dict({"op": "set", "k": o["k"], "t": o["t"], "attr": "definition", "val": "after-force",
+                             "how": "name"}, **({"dt0": True} if same_second else {})))
         else:
             out.append(o)
     prog = out
     dts = draw(st.lists(st.sampled_from([0, 1, 1, 2, 3600, 1000000]), min_size=1, max_size=7))
     return {"auto": draw(st.booleans()) if not sweep else draw(st.sampled_from([True, True, False])),
-            "rich": rich, "t0": draw(st.integers(0, 10 ** 6)), "prog": _with_ticks(prog, dts)}
+            "rich": rich, "t0": draw(st.integers(0, 10 ** 6)), "prog": _with_ticks(prog, dts),
+            "policy": draw(st.sampled_from(["fresh", "cached", "cached", "two"]))}
 
 
 def shards(tier, seed):
